@@ -33,7 +33,7 @@ def run(ctx):
     ctx.floor('C04.executed', 300)
     ctx.floor('C04.exactness_checked', 100)
     saved = ctx.deadline
-    ctx.deadline = time.time() + {'quick': 12, 'thorough': 150}[ctx.tier]
+    ctx.deadline = ctx.clock() + {'quick': 12, 'thorough': 150}[ctx.tier]
     w_alg.drive_forwards(ctx, ctx.tier)
     ctx.deadline = saved
     w_decl.run(ctx)
